@@ -259,6 +259,7 @@ def run(c, chk):
     include_position(c, chk, lex)
     section_handover(c, chk, model)
     error_always_delivered(c, chk)
+    whole_source_scanned(c, chk)
     # parse bracket: cfg_parse_fp sets line = 1 before the first token and maps STATE_ERROR to the parse-error code
     pfn = c.need('cfg_parse_fp')
     ex = sym.Explorer(c.modules, max_visits=2, mod_sets=c.mod_sets)
@@ -411,6 +412,97 @@ def include_position(c, chk, lex):
                  'include pop restores %s from the saved slot, expected filename and line' % sorted(pf))
     else:
         chk.ok('R6.5', 'include push/pop', 'push saves {fp, filename, line} and restarts at line 1; pop restores filename and line from the same slot', sample=True)
+
+
+INSPECTORS = {'strlen', 'strspn', 'strcspn', 'strchr', 'strrchr', 'memchr', 'strpbrk', 'strcmp', 'strncmp', 'strcasecmp', 'strncasecmp', 'strstr', 'strnlen', 'isspace'}
+STREAM_READERS = {'fgetc', 'getc', 'fread', 'fgets', 'fscanf', 'fseek', 'fseeko', 'ungetc', 'getline', 'getdelim', 'rewind', 'fsetpos', 'lseek', 'read'}
+
+
+def _prefix_without_newline(p, src, moved):
+    """the text between src and moved was shown to hold no newline: a span over a byte set without '\\n', or a constant number of
+    bytes each of which was compared equal to something else (a byte-order mark, a signature)"""
+    if moved[0] != 'idx' or moved[1] != src:
+        return False
+    off = moved[2]
+    while off[0] == 'bin' and off[1] in ('sext', 'zext', 'trunc'):
+        off = off[2]
+    if off[0] == 'call' and off[1] == 'strspn':
+        for e in p.events:
+            if e.kind == 'call' and e.res == off and len(e.args) > 1 and e.args[0] == src and e.args[1][0] == 'str':
+                return '\n' not in e.args[1][1]
+        return False
+    if sym.is_const(off) and 0 < off[1] <= 8:
+        for i in range(off[1]):
+            place = sym.norm(('ld', ('idx', src, ('c', i)))) if i else None
+            ok = False
+            for cn, t, _ in p.assume:
+                if cn[0] == 'icmp' and cn[1] in ('eq', 'ne') and ((cn[1] == 'eq') == t):
+                    k = cn[3] if sym.is_const(cn[3]) else (cn[2] if sym.is_const(cn[2]) else None)
+                    other = cn[2] if k is cn[3] else cn[3]
+                    if k is None or (k[1] & 0xff) == 10:
+                        continue
+                    o = other
+                    while o[0] == 'bin' and o[1] in ('sext', 'zext', 'trunc'):
+                        o = o[2]
+                    if o[0] == 'ld' and (sym.norm(o[1]) == sym.norm(('idx', src, ('c', i))) or (i == 0 and o[1] == src)):
+                        ok = True
+            if not ok:
+                return False
+        return True
+    return False
+
+
+def whole_source_scanned(c, chk, rid='R6.7'):
+    """R6.7: line numbers count the newlines the *scanner* sees (R6.4).  They are the lines of the caller's text only if the scanner
+    sees that text from its first byte: the buffer entry point hands on the pointer it was given, not one moved past some
+    prefix, and no entry point reads from the stream before the scanner does"""
+    chk.rule(rid, 'the scanner sees the source from its first byte: the buffer entry point passes its argument on unmoved, and nothing reads from a stream ahead of the scanner')
+    ex = sym.Explorer(c.modules, max_visits=2, mod_sets=c.mod_sets, max_paths=20000)
+    n = 0
+    bad = None
+    fn = c.need('cfg_parse_buf')
+    src = None
+    for prm in fn.params:
+        nm = fn.param_names.get(prm.name, prm.name)
+        if prm.ty.endswith('*') and prm.ty.startswith('i8'):
+            src = ('p', nm)
+    if src is None:
+        raise report.Broken('cfg_parse_buf() has no text parameter')
+    for p in ex.explore(fn):
+        if p.end != 'ret':
+            continue
+        handed = False
+        for e in p.events:
+            if e.kind != 'call' or e.name in INSPECTORS:
+                continue
+            for a in e.args:
+                a_ = a
+                while a_[0] == 'bin' and a_[1] in ('bitcast', 'sext', 'zext', 'trunc'):
+                    a_ = a_[2]
+                if a_ == src:
+                    handed = True
+                elif a_[0] in ('idx', 'bin', 'gep') and sym.mentions(a_, lambda v: v == src) and not sym.mentions(a_, lambda v: v[0] == 'ld'):
+                    if not _prefix_without_newline(p, src, a_):
+                        bad = bad or (p, e, a_)
+        if handed:
+            n += 1
+    if bad is not None:
+        p, e, a_ = bad
+        chk.fail(rid, 'source-prefix-skipped', c.where(e.ins), 'cfg_parse_buf() hands %s() the text moved on by %s instead of the text it was given: what lies before that point never reaches '
+                 'the scanner, so the newlines in it are not counted and every diagnostic names a line that is too small' % (e.name, sym.render(a_)))
+    else:
+        chk.ok(rid, 'cfg_parse_buf: %d paths that hand the text on' % n, 'each passes the argument itself')
+    chk.floor('%s paths of cfg_parse_buf that hand the text on' % rid, n, 1)
+    # stream entry points: nothing consumes input ahead of the scanner
+    nr = 0
+    for f in c.confuse.funcs.values():
+        for call in f.calls():
+            if call.callee_name() in STREAM_READERS:
+                nr += 1
+                chk.fail(rid, 'stream-read-ahead:%s:%s' % (f.name, call.callee_name()), c.where(call), '%s() reads from a stream with %s(): input consumed outside the scanner is not counted in the '
+                         'line numbers of later diagnostics' % (f.name, call.callee_name()))
+    if nr == 0:
+        chk.ok(rid, 'confuse.c', 'no function reads from or repositions a stream (the scanner is the only reader)')
 
 
 def error_always_delivered(c, chk):
